@@ -4,6 +4,9 @@ files) under a fake clock with small limits so that groups rotate and old groups
 is restored with the real `vsb restore` and compared - paths, types, bytes, link targets, permission bits, owners,
 mtimes - with what its run read; the restore model (Restore2.exec on the independently decoded storage) and the run
 model (Dedup.new_backup, rotation) are compared with the implementation along the way."""
+import os
+import stat
+
 from vlib import build, runs, slevel
 
 FILTERS = [None, ["- *.o", "+ **"], ["- d1/**", "- **/.hid"], ["+ d2/*.txt", "- d2/*", "# comment", ""], ["- **/c.txt"]]
@@ -40,6 +43,28 @@ def run(ctx):
                 ctx.sample({"items": nitems, "filters": filters, "history": H.log[:4]})
         if ctx.violations:
             break
+    # identity corner cases, forced: a path whose file is replaced between two runs of one group so that exactly one component of
+    # (device, inode, mtime) - the inode - or only the mtime differs, with the size unchanged
+    for kind in ("renamed-over", "same-size-rewrite"):
+        if ctx.violations:
+            break
+        with slevel.Sandbox("c01") as sb:
+            H = runs.History(ctx, sb, rng, "C01", 3, 4, identity_changes=True)
+            H.w.populate(nfiles=6)
+            H.w.write_file(os.path.join(H.w.src, H.w.items[0], "identity.conf"), b"colour=blue-1\n" * 5)
+            H.run(nedits=0)
+            p = os.path.join(H.w.src, H.w.items[0], "identity.conf")
+            if kind == "renamed-over":
+                H.w.rename_over(p)
+            else:
+                st = os.lstat(p)
+                H.w.write_file(p, b"colour=teal-2\n" * 5, mode=stat.S_IMODE(st.st_mode), owner=(st.st_uid, st.st_gid))
+            ctx.count("forced." + kind)
+            H.run(nedits=0)
+            H.w.edit()
+            H.run(nedits=0)
+            H.restore_all()
+            H.report_diffs("backup-restore")
     ctx.traces = ctx.evaluations
     ctx.assumptions += ["every content change also changes (device, inode, mtime): the driver gives each rewritten file a fresh mtime",
                         "tar/zstd fidelity and chown/chmod/utimensat effects are observed on the restored tree, not proved",
